@@ -15,7 +15,7 @@ def rules_table():
     return "\n".join(rows)
 def seeded_table(prefix):
     rows = ["| seeded change | files | first contact | reported now by (property: first rule:key) |", "|---|---|---|---|"]
-    ids = sorted(d for d in os.listdir(f"{V}/seeded") if (d.startswith(prefix + "-") if prefix in ("r2", "r3", "r4", "r5", "r6", "r7") else not d.startswith("r")))
+    ids = sorted(d for d in os.listdir(f"{V}/seeded") if (d.startswith(prefix + "-") if prefix in ("r2", "r3", "r4", "r5", "r6", "r7", "r8") else not d.startswith("r")))
     for sid in ids:
         m = json.load(open(f"{V}/seeded/{sid}/meta.json"))
         files = sorted(set(re.findall(r"^\+\+\+ b/(\S+)", open(f"{V}/seeded/{sid}/patch.diff").read(), re.M)))
@@ -26,7 +26,7 @@ def seeded_table(prefix):
         rows.append(f"| {sid} | {', '.join(files)} | {first} | {now} |")
     return "\n".join(rows)
 s = open(f"{V}/DESIGN.md").read()
-for name, txt in (("rules-table", rules_table()), ("seeded-round1", seeded_table("r1")), ("seeded-round2", seeded_table("r2")), ("seeded-round3", seeded_table("r3")), ("seeded-round4", seeded_table("r4")), ("seeded-round5", seeded_table("r5")), ("seeded-round6", seeded_table("r6")), ("seeded-round7", seeded_table("r7"))):
+for name, txt in (("rules-table", rules_table()), ("seeded-round1", seeded_table("r1")), ("seeded-round2", seeded_table("r2")), ("seeded-round3", seeded_table("r3")), ("seeded-round4", seeded_table("r4")), ("seeded-round5", seeded_table("r5")), ("seeded-round6", seeded_table("r6")), ("seeded-round7", seeded_table("r7")), ("seeded-round8", seeded_table("r8"))):
     b, e = f"<!-- BEGIN {name} -->", f"<!-- END {name} -->"
     if b in s:
         s = s[:s.index(b) + len(b)] + "\n" + txt + "\n" + s[s.index(e):]
